@@ -9,6 +9,10 @@
 //     registerRedeem, setBtcTxParam, updateFee), cross_chain_manager (vote-router imports up to release, ripple MakeTransaction /
 //     MultiSignRipple / ReconstructRippleTx, BTC deposit / withdrawal / MultiSign, BlackChain / WhiteChain) and header_sync
 //     (ont incl. peer-set change and cross-chain messages, msc clique, btc) with 5 validators.
+//     Process history is a dimension of its own for EVERY block (same prior state, same block, same result?): a child process
+//     that executes each block exactly once (cold, cold.go); first execution in the exploring process; after its own discarded
+//     execution; after a pre-execution of each of its transactions; after a discarded execution of a different block.
+//     One block relays a ropsten header with a REAL ethash seal (eth.go; verifhook.SkipSealFlag stays false).
 //     Every iteration is attributed to its source `range` statement (call-site PCs recorded by this driver's own variant of the
 //     runtime hook, goroot/zz_verif_map.go.txt, swapped in by run.sh); the evidence lists every `range` over a map in the
 //     block-execution packages (sites.go: go/types pass over the sources as built) with what the corpus did there.
@@ -77,6 +81,9 @@ func tx(contract common.Address, method string, args []byte, signers ...polyenv.
 }
 
 func main() {
+	if os.Getenv("VERIF_C16_COLD_CHILD") != "" {
+		coldChildMain() // cold reference of the process-history dimension (cold.go)
+	}
 	r := ev.Start("C16", "model_checking")
 	r.Require("block_deterministic", "static_done")
 
@@ -171,7 +178,7 @@ func main() {
 		"scheduling: block execution is single-threaded (no goroutines are started by executeBlock or the native contracts)")
 	cleanScratch()
 	r.Finish(map[string]any{
-		"rule": fmt.Sprintf("(a) %d corpus blocks (%d transactions, %d contract methods) x every map-iteration site with >=2 entries x every rotation, deviation bound %d; (b) exhaustive reachability from %d roots",
+		"rule": fmt.Sprintf("(a) %d corpus blocks (%d transactions, %d contract methods) x every map-iteration site with >=2 entries x every rotation, deviation bound %d, x 5 process histories (cold child process, first, after own discarded execution, after pre-execution of its txs, after a different discarded block); (b) exhaustive reachability from %d roots",
 			dyn.blocks, dyn.txs, len(dyn.methods), dyn.bound, len(reach.Roots)),
 		"states":      dyn.totalSites + reach.Visited,
 		"transitions": dyn.totalExec + reach.Edges,
